@@ -12,7 +12,8 @@
       between the two the task can already run, and a flush that begins there does not see it;
     * how `flush` walks its skeleton: close, snapshot of the pending map, one `future.result` per entry inside the
       `try` the skeleton shows (`flushCatches`), return;
-    * what a task body does: `Outcome` (the failure subset is a function `Int → Outcome` from job id).
+    * what a task body does: `Outcome` (the failure subset is a function `Int → Outcome` from job id), run through
+      the regenerated statement-by-statement translation of `_push_task` (`pushTask`).
   A schedule is a list of steps; a step that is not enabled is a no-op, so every list is a schedule.
 -/
 import DeepModel.Extracted.Tasks
@@ -28,17 +29,18 @@ inductive Outcome where
   | dies (e : Py.Exn)           -- fails before sending with something convert_snapshot does not catch
 deriving DecidableEq, Repr
 
-def Outcome.error : Outcome → Option Py.Exn
-  | .sendFails e => some e
-  | .dies e => some e
-  | _ => none
+/-- the behaviour of `convert_snapshot` and `stub.send` an outcome stands for (inputs of the translated `_push_task`) -/
+def Outcome.inputs : Outcome → ConvOut × Option Py.Exn
+  | .ok => (.converted, none)
+  | .unconvertible => (.isNone, none)
+  | .sendFails e => (.converted, some e)
+  | .dies e => (.raises e, none)
 
-/-- send attempts made by one execution of `_push_task` -/
-def Outcome.sends : Outcome → Nat
-  | .ok => sendsPerTask
-  | .sendFails _ => min 1 sendsPerTask
-  | .unconvertible => if dropsUnconvertible then 0 else sendsPerTask
-  | .dies _ => 0
+/-- the exception that leaves one execution of `_push_task` (`Extracted.Tasks.pushTask`, regenerated) -/
+def Outcome.error (o : Outcome) : Option Py.Exn := (pushTask o.inputs.1 o.inputs.2).2
+
+/-- send attempts made by one execution of `_push_task` (`Extracted.Tasks.pushTask`, regenerated) -/
+def Outcome.sends (o : Outcome) : Nat := (pushTask o.inputs.1 o.inputs.2).1
 
 inductive Fut where
   | queued
@@ -229,6 +231,23 @@ def step (f : Int → Outcome) (s : St) : Step → St
     match s.flush with
     | .waiting [] => { s with flush := .returned }
     | _ => s
+
+/-! ### the in-tree submitters after close -/
+
+/-- what the caller of a submitter sees when the task handler refuses the work -/
+inductive Refusal where
+  | raised (e : Py.Exn)     -- the refusal reaches the submitter's caller
+  | logged                  -- swallowed, but a log record at WARNING or above is emitted
+  | silent                  -- swallowed without a trace: the work is dropped silently
+deriving DecidableEq, Repr
+
+/-- a submitter (`Extracted.Tasks.SubmitSite`) meets a task handler in state `th`: `submit_task` refuses
+    (`submitTask th = .error e`) and the site lets that through, or swallows it (with or without a log record);
+    `none` = the work was accepted -/
+def siteOutcome (site : SubmitSite) (th : TH) : Option Refusal :=
+  match submitTask th with
+  | .ok _ => none
+  | .error e => some (if site.swallowsRefusal then (if site.handlerLogs then .logged else .silent) else .raised e)
 
 def runFrom (f : Int → Outcome) (s : St) (sched : List Step) : St := sched.foldl (step f) s
 def run (f : Int → Outcome) (sched : List Step) : St := runFrom f St.init sched
